@@ -88,6 +88,20 @@ fn completion_findings(s: &CaseSpec, o: &Outcome, an: &Analysis) -> (Vec<Finding
     (f, false)
 }
 
+/// configurations for the degenerate-content family: block sizes 8 / 512 / 4096 / 8192 (page and sector multiples),
+/// lengths that are and are not multiples of the block size
+fn content_cfgs(role: Role, q: bool) -> Vec<Cfg> {
+    let mut v = Vec::new();
+    for b in [8usize, 512, 4096, 8192] {
+        for w in if q { vec![1u16, 4] } else { vec![1u16, 2, 4, 16] } {
+            for len in [0u64, b as u64, 3 * b as u64, 5 * b as u64 + 17, 8 * b as u64, 70_000 / b as u64 * b as u64 + 3 * b as u64] {
+                v.push(Cfg { role, b, w, len, hs: role == Role::Send && w == 4, every: 0 });
+            }
+        }
+    }
+    v
+}
+
 fn quick(tier: &str) -> bool {
     tier != "thorough"
 }
@@ -155,6 +169,9 @@ pub fn build(id: &str, tier: &str, seed: u64, threads: usize) -> Option<Plan> {
                     fam_triples(b, false, 13, &mut cases);
                 }
             }
+            for (b, _) in &make_bases(&content_cfgs(Role::Send, q), seed, threads) {
+                fam_content(b, b.spec.nblocks() <= 10, &mut cases);
+            }
             Some(Plan {
                 cases,
                 judge: judge_rules(&["CONTENT", "BEYOND_FINAL", "E2E", "ENDED_EARLY"]),
@@ -203,6 +220,9 @@ pub fn build(id: &str, tier: &str, seed: u64, threads: usize) -> Option<Plan> {
                 if !q && b.spec.b == 8 {
                     fam_triples(b, false, 13, &mut cases);
                 }
+            }
+            for (b, _) in &make_bases(&content_cfgs(Role::Recv, q), seed, threads) {
+                fam_content(b, b.spec.nblocks() <= 10, &mut cases);
             }
             Some(Plan {
                 cases,
